@@ -287,7 +287,8 @@ def check(ctx):
     pw = "%s:%d" % (p.file, p.line)
     pe = [s for s, n in calls_on(cp, r"^\$1\.%s$" % M_MSGS) if n.endswith("HashMap::entry")]
     pins = p.call_sites(r"hash_map::VacantEntry::insert(_entry)?$")
-    hp = [s for s in p.call_sites(r"Vec::push$") if "$1.%s" % M_HIST in render(cp.args(s)[0])]
+    hp_deep = [x for x in lib_gs2.deep_calls(cp, r"Vec::push$") if "$1.%s" % M_HIST in render(x[1][0]) and x[2] == (1, 1)]
+    hp = [x[0] for x in hp_deep]
     ctx.floor("mcache-put", "msgs.entry", pe, 1, exact=True)
     ctx.floor("mcache-put", "msgs insert", pins, 1, exact=True)
     ctx.floor("mcache-put", "history push", hp, 1, exact=True)
@@ -309,9 +310,9 @@ def check(ctx):
             ctx.ob("mcache-put", "duplicate put changes nothing", not (set(lib.bbs(pins + hp)) & r), pw, "no insert / push on the Occupied arm")
             vals = {render(e) for s, e in cp.returns() if s.bb in r}
             ctx.ob("mcache-put", "duplicate put reports false", vals == {"0"}, pw, str(sorted(vals)))
-        r = render(cp.args(hp[0])[0])
+        r = render(hp_deep[0][1][0])
         ctx.ob("mcache-put", "new id is recorded in history[0]", re.match(r"^<std::vec::Vec as std::ops::IndexMut>::index_mut\(\$1\.%s, 0\)$|^\$1\.%s\[0\]$" % (M_HIST, M_HIST), r) is not None, hp[0].loc(), r)
-        a1 = cp.args(hp[0])[1]
+        a1 = hp_deep[0][1][1]
         f = dict((k_, render(x)) for k_, x in a1[4]) if a1[0] == "agg" else {}
         ctx.ob("mcache-put", "history entry = (this id, the message's topic)", f.get(E_MID) == "$2" and f.get(E_TOPIC) == "$3.topic", hp[0].loc(), str(f)[:220])
         r = render(cp.args(pins[0])[1])
@@ -485,8 +486,9 @@ def check(ctx):
         ctx.ob("mcache-shift", "one empty slot is inserted at the front", a[1:] == ["0", "std::vec::Vec::new()"], s.loc(), str(a[1:]))
         if pop:
             lib.precedes(ctx, "mcache-shift", "the old slot is dropped before the new one is added", sh, lib.bbs(pop), [s.bb], "pop precedes insert(0, ..)", s.loc())
-    mrem = [s for s, n in calls_on(csh, r"^\$1\.%s$" % M_MSGS) if n.endswith("HashMap::remove")]
-    irem = [s for s, n in calls_on(csh, r"^\$1\.%s$" % M_IW) if n.endswith("HashMap::remove")]
+    REM = r"HashMap::(remove|remove_entry)$"
+    mrem = [x[0] for x in lib_gs2.deep_calls(csh, REM, r"^\$1\.%s$" % M_MSGS) if x[2] == (1, 1)]
+    irem = [x[0] for x in lib_gs2.deep_calls(csh, REM, r"^\$1\.%s$" % M_IW) if x[2] == (1, 1)]
     loops = []
     for s in mrem[:1]:
         for text, labels, sw, cond in sh.guards_on_all_paths(s.bb):
@@ -499,11 +501,12 @@ def check(ctx):
         ii = c2.init(itl)
         ctx.ob("mcache-shift", "the entries expired are those of the popped slot", ii is not None and re.search(r"into_iter\(std::option::Option::(expect|unwrap\w*)\(std::vec::Vec::pop\(\$1\.%s\)" % M_HIST, render(ii)) is not None, shw, render(ii)[:200] if ii else "")
         some = [t for t, ls in sh.switch_info(sw)[1].items() if "Some" in ls]
+        keyed = {"message": lib_gs2.deep_calls(c2, REM, r"^\$1\.%s$" % M_MSGS), "iwant counters": lib_gs2.deep_calls(c2, REM, r"^\$1\.%s$" % M_IW)}
         for nm, ss in (("message", mrem), ("iwant counters", irem)):
             got = lib.count_range(sh, some, [headbb], lib.bbs(ss)) if some else None
             ctx.ob("mcache-shift", "every popped entry's %s is removed" % nm, got == (1, 1), shw, "removals per popped entry: %s" % (got,))
-            for s in ss:
-                k = render(c2.args(s)[1])
+            for s, a_, _, _ in keyed[nm]:
+                k = render(a_[1])
                 ctx.ob("mcache-shift", "removal is keyed by the popped entry's id", re.match(r"^<.* as std::iter::Iterator>::next\(it\)@Some\.0\.%s$" % E_MID, k) is not None, s.loc(), k[-60:])
     # ---- removal pairing (K4): msgs.remove(k) is always accompanied by iwant_counts.remove(k)
     n_pairs = 0
@@ -511,15 +514,15 @@ def check(ctx):
         if not re.search(r"^libp2p_gossipsub::mcache::", b_.npath):
             continue
         cb_ = Canon(prog, b_)
-        ms = [s for s, n in calls_on(cb_, r"(^|\.)%s$" % M_MSGS) if re.search(r"HashMap::(remove|remove_entry)$", n)]
-        iws = [s for s, n in calls_on(cb_, r"(^|\.)%s$" % M_IW) if re.search(r"HashMap::(remove|remove_entry)$", n)]
-        for m in ms:
+        ms = [x for x in lib_gs2.deep_calls(cb_, r"HashMap::(remove|remove_entry)$", r"(^|\.)%s$" % M_MSGS) if x[2][0] >= 1]
+        iws = [x for x in lib_gs2.deep_calls(cb_, r"HashMap::(remove|remove_entry)$", r"(^|\.)%s$" % M_IW) if x[2][0] >= 1]
+        for m, ma, _, _ in ms:
             n_pairs += 1
-            k = render(cb_.args(m)[1])
-            cands = [w_ for w_ in iws if render(cb_.args(w_)[1]) == k]
+            k = render(ma[1])
+            cands = [w_ for w_, wa, _, _ in iws if render(wa[1]) == k]
             ok = False
             for w_ in cands:
-                if b_.dominates(w_.bb, m.bb) or b_.must_pass_nodes(b_.succ[m.bb], b_.return_blocks() + [m.bb], [w_.bb]):
+                if w_.bb == m.bb or b_.dominates(w_.bb, m.bb) or b_.must_pass_nodes(b_.succ[m.bb], b_.return_blocks() + [m.bb], [w_.bb]):
                     ok = True
             fn = b_.npath.split("::")[-2] + "::" + b_.npath.split("::")[-1]
             ctx.ob("mcache-remove", "every msgs removal also drops the id's iwant counters (%s)" % fn, ok, m.loc(),
@@ -527,7 +530,7 @@ def check(ctx):
                    "msgs.remove without iwant_counts.remove of the same id: a later put of the same id continues counting from the stale value")
     ctx.ob("mcache-remove", "floor:msgs removal sites", n_pairs >= 2, nontrivial=False, msg="%d" % n_pairs)
     rm = ctx.body(G, MC + r"remove$")
-    r0 = [render(e) for _, e in Canon(prog, rm).returns()]
+    r0 = [render(e) for _, e in Canon(prog, rm, inline=r"^libp2p_gossipsub::mcache::").returns()]
     ctx.ob("mcache-remove", "remove returns the removed message", r0 == ["std::collections::HashMap::remove($1.%s, $2)" % M_MSGS], "%s:%d" % (rm.file, rm.line), str(r0))
     # ---- heartbeat shifts once
     hb = ctx.body(G, r"^libp2p_gossipsub::behaviour::Behaviour::heartbeat$")
